@@ -5,7 +5,8 @@ CONSTANTS
   Kinds = {"const", "mov", "out"}
   Rule = "bothlive"
   Filter = TRUE
-  RandLen = 0
+  RandLens = {}
+  RandKinds = {}
   RandCount = 0
 SPECIFICATION Spec
 INVARIANT AllocatedRunAgrees
